@@ -102,3 +102,71 @@ package bufiox
 //@   results err
 //@   ensures err == nil ==> self.$wlen == 0 && self.$nchunks == 0
 //@   assigns self.$wlen, self.$nchunks, self.$lastchunk, self.$prevchunk
+
+// ---------------------------------------------------------------------------------------
+// io.Reader: the only thing DefaultReader may assume about its source.
+//   $f     the bytes the source will still deliver before its first error (in order)
+//   $ferr  the error it reports when that data has run out
+// A source may fragment $f in any way and may deliver the last bytes together with the
+// error. It is assumed not to stall: a nil error comes with at least one byte (a source that
+// returns (0, nil) forever cannot be distinguished from one that is merely slow).
+
+//@ ghost $f string
+//@ ghost $ferr error
+
+//@ iface io.Reader.Read
+//@   params p
+//@   results n, err
+//@   ensures 0 <= n && n <= len(p) && n <= len(old(self.$f)) && eqbytes(p, 0, old(self.$f), 0, n) && same(self.$f, old(self.$f)[n:])
+//@   ensures err != nil ==> len(self.$f) == 0 && same(self.$ferr, err)
+//@   ensures err == nil ==> n > 0 || len(p) == 0
+//@   assigns p[0:len(p)], self.$f, self.$ferr
+
+//@ extern github.com/bytedance/gopkg/lang/mcache.Malloc
+//@   params size, capacity
+//@   requires 0 <= size
+//@   ensures len(ret) == size && size <= cap(ret) && (len(capacity) > 0 ==> capacity[0] <= cap(ret)) && fresh(ret) && writable(ret) && offset(ret) == 0 && rsize(region(ret)) == cap(ret)
+//@   assigns \nothing
+
+//@ extern github.com/bytedance/gopkg/lang/mcache.Free
+//@   assigns \nothing
+
+// DefaultReader. The unread stream $u of a DefaultReader is the window of the source's stream
+// array that starts at the first buffered-but-unread byte: the buffered bytes buf[ri:] are
+// exactly the stream bytes that precede the source's future $f (representation invariant drInv).
+
+//@ pred drU(r) = strwin(r.rd.$f, r.ri - len(r.buf), len(r.rd.$f) + len(r.buf) - r.ri)
+//@ pred drInv(r) = !isnil(r.rd) && 0 <= r.ri && r.ri <= len(r.buf) && eqbytes(r.buf, r.ri, drU(r), 0, len(r.buf) - r.ri) && (!isnil(r.err) ==> len(r.rd.$f) == 0 && same(r.err, r.rd.$ferr)) && (isnil(r.buf) ==> r.ri == 0)
+
+//@ model DefaultReader.$u = strwin(self.rd.$f, self.ri - len(self.buf), len(self.rd.$f) + len(self.buf) - self.ri)
+//@ model DefaultReader.$readlen = self.ri
+
+//@ func maxSizeStats.maxSize
+//@   arith int
+//@   props C04, C05
+//@   trusted
+//@   ensures 0 <= ret && ret <= 0x800000000000
+
+//@ func maxSizeStats.update
+//@   arith int
+//@   props C04, C05
+//@   trusted
+//@   assigns *s
+
+//@ func DefaultReader.acquireSlow
+//@   arith int
+//@   props C04, C09
+//@   requires drInv(r) && 0 <= n && n <= 0x400000000000 && n > len(r.buf) - r.ri
+//@   let U = drU(r)
+//@   ensures drInv(r) && same(drU(r), U) && r.ri == old(r.ri)
+//@   ensures 0 <= ret && ret <= n && ret <= len(r.buf) - r.ri
+//@   ensures (ret == n) == (n <= len(U))
+//@   ensures ret < n ==> !isnil(r.err)
+//@   assigns r.buf, r.bufReadOnly, r.pendingBuf, r.err, r.buf[len(r.buf):cap(r.buf)], r.rd.$f, r.rd.$ferr
+//@   loop 1 invariant 4096 <= maxSize && maxSize <= 0x800000000000
+//@   loop 1 decreases n - maxSize
+//@   loop 2 invariant 2 <= ncap && ncap <= 0x2000000000000
+//@   loop 2 decreases n + r.ri - ncap
+//@   loop 3 invariant drInv(r) && same(drU(r), U) && r.ri == old(r.ri) && isnil(r.err) && n > len(r.buf) - r.ri && n <= cap(r.buf) - r.ri && 0 <= i
+//@   loop 3 invariant fresh(r.buf) || (region(r.buf) == region(old(r.buf)) && offset(r.buf) == offset(old(r.buf)) && cap(r.buf) == cap(old(r.buf)) && len(old(r.buf)) <= len(r.buf))
+//@   loop 3 decreases 100 - i
